@@ -349,4 +349,8 @@ def run(tier: str) -> CheckResult:
                      3 if q else 4, 60000 if q else 3_000_000, 300 if q else 5000, 50 if q else 900))
     for part in parallel(_mc_and_replay, jobs):
         res.merge(part)
+    # T: "whenever no task is running every worker is back at full capacity" on the sim corpus
+    from . import simprops
+
+    simprops.check("C04", tier, res)
     return res
